@@ -248,6 +248,52 @@ def rule_source(ck: Check, repo: Repo) -> None:
             r.violation(q, "file-format errors are not converted to a parse error", f"catches {sorted(hs)}, needs {sorted(want)}", repo.loc(fn))
 
 
+def rule_decode_modes(ck: Check, repo: Repo, rid: str = "R5") -> None:
+    """Text decoded from untrusted bytes must be ENCODABLE again: it ends up in reports, SPDX documents and headers.
+    `surrogateescape` / `surrogatepass` turn undecodable bytes into lone surrogates, which no UTF-8 sink accepts - the
+    crash (UnicodeEncodeError) then happens at output time, far from any handler."""
+    r = ck.rule(rid, "bytes are decoded with an error mode whose result can be encoded again (no surrogateescape / surrogatepass)")
+    n = 0
+    for mod in repo.modules.values():
+        for c in ast.walk(mod.tree):
+            if not isinstance(c, ast.Call):
+                continue
+            f = ast.unparse(c.func)
+            is_decode = isinstance(c.func, ast.Attribute) and c.func.attr == "decode"
+            is_open = f in ("open", "io.open", "codecs.open") or (isinstance(c.func, ast.Attribute) and c.func.attr in ("open", "read_text"))
+            is_str = f == "str" and len(c.args) >= 2
+            if not (is_decode or is_open or is_str or f in ("os.fsdecode", "codecs.decode")):
+                continue
+            mode = next((kw.value for kw in c.keywords if kw.arg == "errors"), None)
+            if mode is None and is_decode and len(c.args) >= 2:
+                mode = c.args[1]
+            if mode is None and is_str and len(c.args) >= 3:
+                mode = c.args[2]
+            where = repo.enclosing_function(c)
+            wq = repo.qualname_of(where) if where is not None else mod.name
+            if f == "os.fsdecode":
+                n += 1
+                r.instance(f"{wq}:{ast.unparse(c)[:50]}", {"call": ast.unparse(c)[:80], "errors": "surrogateescape (implicit)"}, wq)
+                r.violation(wq, "os.fsdecode yields lone surrogates for undecodable names", ast.unparse(c)[:80], repo.loc(c))
+                continue
+            if mode is None:
+                if is_decode:
+                    n += 1
+                    r.instance(f"{wq}:{ast.unparse(c)[:50]}", {"call": ast.unparse(c)[:80], "errors": "strict (default)"}, wq)
+                continue
+            n += 1
+            val = mode.value if isinstance(mode, ast.Constant) else None
+            r.instance(f"{wq}:{ast.unparse(c)[:50]}", {"call": ast.unparse(c)[:80], "errors": val if val is not None else ast.unparse(mode)}, wq)
+            if val is None:
+                r.violation(wq, f"decode error mode is not a constant ({ast.unparse(mode)})", ast.unparse(c)[:80], repo.loc(c))
+            elif val in ("surrogateescape", "surrogatepass"):
+                r.violation(wq, f"errors={val!r} produces text that cannot be encoded again",
+                            f"`{ast.unparse(c)[:80]}`: an undecodable byte becomes a lone surrogate; writing the extracted value"
+                            f" (spdx -o FILE, lint output, annotate) then raises UnicodeEncodeError outside every handler", repo.loc(c))
+    r.floor(5, "decode sites", got=n)
+
+
+
 def run(ck: Check, repo: Repo) -> None:
     ck.explanation = (
         "Exception-escape analysis: for every function the set of (exception class, origin) pairs that leave it is"
@@ -271,3 +317,4 @@ def run(ck: Check, repo: Repo) -> None:
     rule_validate(ck, repo)
     rule_isolation(ck, repo)
     rule_source(ck, repo)
+    rule_decode_modes(ck, repo)
